@@ -22,7 +22,9 @@ from gen import scopes as G
 MODELS = ['Scopes', 'Refs']
 LEAN_TARGETS = ['JediModel.Props.C05', 'JediModel.Drivers.C05']
 MANIFEST = dict(
-    text='Theorems: render_rename over Model/Tree (rendering the rename map changes exactly the values of the '
+    text='Theorems: refs_sound_partial (every reported reference denotes the variable under the cursor, for '
+         'identifiers satisfying the decidable NameOk; scan invariant by induction over the occurrence list, built on '
+         'the C03 chain theorem generalised over the flow-analysis selector), render_rename over Model/Tree (rendering the rename map changes exactly the values of the '
          'mapped name leaves; every prefix and every other leaf is byte-identical), and over Model/Refs (a '
          'transcription of find_references: defining-name closure with flow analysis off, global-variable step, '
          'same-context step, scan with late merge): every reference carries the identifier of the start, the start is '
@@ -332,6 +334,10 @@ def run(ctx):
             if isinstance(a, dict) and 'error' in a:
                 raise common.InfraError('driver: %r' % a)
             occs = out['occs']
+            for u in out['refs']:
+                ok_ = bool(a['nameok'][u])
+                # how many start points the soundness theorem refs_sound_partial covers
+                ctx.count('nameok', (out['src'], u), nontrivial=ok_, bucket='NameOk' if ok_ else 'outside-hypothesis')
             for u, impl in out['refs'].items():
                 model = sorted(a['refs'][u])
                 ctx.count('refs/' + out['tag'], (out['src'], u), nontrivial=len(model) > 1,
